@@ -109,7 +109,7 @@ def handle (cmd : String) (args : List String) : Option String :=
       if ms < 0 ∨ cvt < 0 ∨ st < 0 ∨ tw < 0 then none else
       match bool? gv, parseGlyph rest with
       | some g, some (glyph, []) =>
-        match Carve.outlineCounts ⟨ms.toNat, cvt.toNat, st.toNat, tw.toNat, g⟩ glyph with
+        match Carve.outlineCounts (Carve.limitsOfMaxp ms.toNat tw.toNat st.toNat cvt.toNat g) glyph with
         | none => some "err:RecursionLimitExceeded"
         | some c => some (Carve.renderCounts c)
       | _, _ => none
